@@ -440,6 +440,7 @@ struct VSys {
                 "=String(\"s\")", "=const String&", "=StringView", "=ArrayT&&", "=ObjectT const&",
                 "=own array (const ArrayT& alias)", "=own object (const ObjectT& alias)", "=own string (const String& alias)",
                 "=18446744073709551615u", "=\"18446744073709551615\"",
+                "=own first child (const Value&)", "=move(own first child)", "+=own first element (const Value&)", "first element=whole (const Value&)",
                 "+=7u", "+=\"s\"", "+=null", "+=true", "+=2.5", "+=[] (ArrayT&&)", "+=[9,8] (ArrayT&&)", "+=[9] (const ArrayT&)", "+={c:3} (ObjectT&&)",
                 "+={a:4} (const ObjectT&)", "+=R1", "+=move(R1)", "+=String&&", "+=StringView",
                 "Merge(R1)", "Merge(move(R1))",
@@ -828,6 +829,51 @@ struct VSys {
                     return false;
                 }
                 X = *((const V &)X).GetString();
+            } else if (act == "=own first child (const Value&)" || act == "=move(own first child)") {
+                // the argument is a part of the value it is assigned to
+                MV *mc = nullptr;
+                if (M.k == MV::A && !M.items.empty()) {
+                    mc = &M.items[0];
+                } else if (M.k == MV::O && !M.had_removal && !M.members.empty()) {
+                    mc = &M.members[0].second;
+                }
+                if (mc == nullptr || mc->k == MV::U || mc->k == MV::P) {
+                    return false; // a hole is not handed out by GetValue; a pointer element is looked through
+                }
+                V *c = X.GetValue(SizeT(0));
+                if (c == nullptr) {
+                    err = "GetValue(0) of a non-empty container returned null";
+                    return true;
+                }
+                if (act == "=own first child (const Value&)") {
+                    MV cm = m_copy(*mc);
+                    X     = (const V &)*c;
+                    M     = cm;
+                } else {
+                    MV cm = *mc;
+                    X     = std::move(*c);
+                    M     = cm;
+                }
+            } else if (act == "+=own first element (const Value&)") {
+                if (M.k != MV::A || M.items.empty() || M.items[0].k == MV::U || M.items[0].k == MV::P) {
+                    return false;
+                }
+                const V *c = ((const V &)X).GetValue(SizeT(0));
+                if (c == nullptr) {
+                    err = "GetValue(0) of a non-empty array returned null";
+                    return true;
+                }
+                MV cm = m_copy(M.items[0]);
+                X += *c;
+                M.items.push_back(cm);
+            } else if (act == "first element=whole (const Value&)") {
+                if (M.k != MV::A || M.items.empty()) {
+                    return false;
+                }
+                MV  whole = m_copy(M);
+                V  &c     = X[SizeT(0)];
+                c         = (const V &)X;
+                M.items[0] = whole;
             } else if (act == "=18446744073709551615u") {
                 X = SizeT64{18446744073709551615ULL};
                 M = mUI(18446744073709551615ULL);
